@@ -7,4 +7,4 @@ COPY="$(mktemp -d /dev/shm/hv-mut-XXXXXX)"
 trap 'rm -rf "$COPY"' EXIT
 rsync -a --exclude .git --exclude '__pycache__' /repo/ "$COPY/"
 ( cd "$COPY" && patch -p1 -s < "$PATCH" ) || { echo "patch failed"; exit 3; }
-cd /verif && VERIF_REPO="$COPY" ./check "$@"
+cd /verif && HV_EVIDENCE_DIR=/verif/out/evidence-mutants VERIF_REPO="$COPY" ./check "$@"
